@@ -226,3 +226,203 @@ func (e *Engine) scanProgram() {
 	}
 	sort.Slice(e.ifaceSrcList, func(i, j int) bool { return typeKey(e.ifaceSrcList[i]) < typeKey(e.ifaceSrcList[j]) })
 }
+
+// ---- which calls can change a global ghost variable -------------------------
+//
+// A global ghost variable is written only through contracts that name it (a
+// `ghost g = ...` assignment or `assigns g`). A callee without a write frame can
+// therefore change g only if its code reaches - through static calls, closures,
+// and (class-hierarchy style) every repository implementation of an interface
+// method it invokes - a function whose contract writes g. Library code outside
+// the repository is assumed to call back only into methods without ghost effect
+// (comparison, formatting) - assumption A13.
+
+func contractWritesGhost(c *FuncContract, name string) bool {
+	for _, gu := range c.Ghost {
+		if id, ok := gu.Target.(*CIdent); ok && id.Name == name {
+			return true
+		}
+	}
+	for _, a := range c.Assigns {
+		if id, ok := a.(*CIdent); ok && id.Name == name {
+			return true
+		}
+	}
+	return false
+}
+
+// ghostWriters: does any contract at all write the ghost variable?
+func (e *Engine) anyGhostWriter(name string) bool {
+	for _, c := range e.cs.Funcs {
+		if contractWritesGhost(c, name) {
+			return true
+		}
+	}
+	return false
+}
+
+func (e *Engine) mayWriteGhost(fn *ssa.Function, name string) bool {
+	if e.ghostReachMemo == nil {
+		e.ghostReachMemo = map[string]int{}
+	}
+	if fn == nil {
+		return true
+	}
+	key := fnFullName(fn) + "\x00" + name
+	if v, ok := e.ghostReachMemo[key]; ok {
+		return v == 1
+	}
+	res := e.mayWriteGhostRec(fn, name, map[*ssa.Function]bool{})
+	if res {
+		e.ghostReachMemo[key] = 1
+	} else {
+		e.ghostReachMemo[key] = 0
+	}
+	return res
+}
+
+// mayWriteGhostRec: plain reachability search; visited functions are not explored twice.
+func (e *Engine) mayWriteGhostRec(fn *ssa.Function, name string, visited map[*ssa.Function]bool) bool {
+	if fn == nil {
+		return true
+	}
+	if visited[fn] {
+		return false
+	}
+	visited[fn] = true
+	if e.ghostReachMemo != nil {
+		if v, ok := e.ghostReachMemo[fnFullName(fn)+"\x00"+name]; ok {
+			return v == 1
+		}
+	}
+	if c := e.contractFor(fn); c != nil {
+		if contractWritesGhost(c, name) {
+			return true
+		}
+		if c.Pure || c.HasAssigns {
+			return false // the contract's frame does not include the ghost
+		}
+	}
+	if len(fn.Blocks) == 0 {
+		return false // no body: code outside the repository (A13)
+	}
+	for _, b := range fn.Blocks {
+		for _, ins := range b.Instrs {
+			switch x := ins.(type) {
+			case *ssa.MakeClosure:
+				if f, ok := x.Fn.(*ssa.Function); ok && e.mayWriteGhostRec(f, name, visited) {
+					return true
+				}
+			case ssa.CallInstruction:
+				c := x.Common()
+				if c.IsInvoke() {
+					if e.invokeMayWriteGhost(c, name, visited) {
+						return true
+					}
+				} else if callee := c.StaticCallee(); callee != nil {
+					if e.mayWriteGhostRec(callee, name, visited) {
+						return true
+					}
+				} else if _, isBuiltin := c.Value.(*ssa.Builtin); !isBuiltin {
+					if e.funcValueMayWriteGhost(c, name, visited) {
+						return true
+					}
+				}
+			}
+		}
+	}
+	return false
+}
+
+func (e *Engine) invokeMayWriteGhost(c *ssa.CallCommon, name string, onStack map[*ssa.Function]bool) bool {
+	recvT := c.Value.Type()
+	if named, ok := recvT.(*types.Named); ok && named.Obj().Pkg() != nil {
+		key := named.Obj().Pkg().Path() + ".(" + typeLabelNoPkg(recvT) + ")." + c.Method.Name()
+		if ct := e.cs.Funcs[key]; ct != nil {
+			return contractWritesGhost(ct, name) || (!ct.Pure && !ct.HasAssigns)
+		}
+	}
+	iface, ok := recvT.Underlying().(*types.Interface)
+	if !ok {
+		return true
+	}
+	for _, f := range e.implementersOf(iface, recvT, c.Method) {
+		if e.mayWriteGhostRec(f, name, onStack) {
+			return true
+		}
+	}
+	return false
+}
+
+// implementersOf: the methods of repository types that an invoke of method m on
+// the interface can dispatch to (cached).
+func (e *Engine) implementersOf(iface *types.Interface, recvT types.Type, m *types.Func) []*ssa.Function {
+	if e.implMemo == nil {
+		e.implMemo = map[string][]*ssa.Function{}
+	}
+	key := types.TypeString(recvT, nil) + "." + m.Name()
+	if fs, ok := e.implMemo[key]; ok {
+		return fs
+	}
+	var out []*ssa.Function
+	for _, tn := range e.allNamedTypes() {
+		if tn.Pkg() == nil || !strings.HasPrefix(tn.Pkg().Path(), repoModule) {
+			continue
+		}
+		for _, t := range []types.Type{tn.Type(), types.NewPointer(tn.Type())} {
+			if !types.Implements(t, iface) {
+				continue
+			}
+			sel := e.prog.MethodSets.MethodSet(t).Lookup(m.Pkg(), m.Name())
+			if sel == nil {
+				continue
+			}
+			if f := e.prog.MethodValue(sel); f != nil {
+				out = append(out, f)
+			}
+			break
+		}
+	}
+	e.implMemo[key] = out
+	return out
+}
+
+func (e *Engine) funcValueMayWriteGhost(c *ssa.CallCommon, name string, onStack map[*ssa.Function]bool) bool {
+	// contract on the function type or on the struct field holding the function
+	if named, ok := c.Value.Type().(*types.Named); ok && named.Obj().Pkg() != nil {
+		if ct := e.cs.Funcs[named.Obj().Pkg().Path()+".("+named.Obj().Name()+").call"]; ct != nil {
+			return contractWritesGhost(ct, name) || (!ct.Pure && !ct.HasAssigns)
+		}
+	}
+	if key := fieldFuncKey(c.Value); key != "" {
+		if ct := e.cs.Funcs[key]; ct != nil {
+			return contractWritesGhost(ct, name) || (!ct.Pure && !ct.HasAssigns)
+		}
+	}
+	// unknown function value: any function of the repository with this signature
+	sig := c.Signature()
+	if e.sigMemo == nil {
+		e.sigMemo = map[string][]*ssa.Function{}
+	}
+	skey := types.TypeString(sig.Params(), nil) + types.TypeString(sig.Results(), nil)
+	cands, ok := e.sigMemo[skey]
+	if !ok {
+		var names []string
+		for n, fn := range e.fnByName {
+			if fn.Signature != nil && len(fn.Blocks) > 0 && types.Identical(fn.Signature.Params(), sig.Params()) && types.Identical(fn.Signature.Results(), sig.Results()) {
+				names = append(names, n)
+			}
+		}
+		sort.Strings(names)
+		for _, n := range names {
+			cands = append(cands, e.fnByName[n])
+		}
+		e.sigMemo[skey] = cands
+	}
+	for _, fn := range cands {
+		if e.mayWriteGhostRec(fn, name, onStack) {
+			return true
+		}
+	}
+	return false
+}
